@@ -89,6 +89,7 @@ type Hist struct {
 	NCli     int        `json:"ncli"`
 	CliBal   uint64     `json:"clibal"`
 	OwnerBal uint64     `json:"ownerbal"`
+	Ent      bool       `json:"ent,omitempty"` // enterprise blobbers and allocations only (needs electra from round 0); oracle only, not modelled
 	Ops      []Op       `json:"ops"`
 }
 
